@@ -15,7 +15,7 @@
 From Coq Require Import List Bool ZArith NArith.
 Import ListNotations.
 From Gnmi Require Import Manager.ManagerModel Manager.ManagerCheck Manager.ManagerProofs
-  Manager.ManagerProofs2.
+  Manager.ManagerProofs2 Manager.ManagerLive.
 
 (** every producible log projects on a prefix of the session language
     ( CE ME | [Connect (Update|Sync)*] Reset CE ME )*, the DFA state being
@@ -202,3 +202,100 @@ Theorem C13_cancel_attributed :
   forall c tr s, run c init tr s -> k_cause (c_timeout c) 0 false tr = true.
 Proof. exact cause_full. Qed.
 Print Assumptions C13_cancel_attributed.
+
+(** * Liveness over infinite fair runs (Manager/ManagerLive.v)
+
+    A run is a sequence of states [r : nat -> st] with an optional label per
+    step ([LG] hidden step of the monitor goroutine, [LH] any other hidden
+    step, [LV e] the letter [e], [None] nobody moves).  Weak fairness
+    ([wfair]): from every point on the thread eventually moves or is disabled.
+    Threads: the monitor goroutine ([mon_moves]: [LG] and the callbacks), the
+    environment answering the goroutine's calls ([env_moves]: credentials,
+    dial, done, open, Send, Recv -- a fair environment completes a pending
+    call), the caller of Remove ([rm_moves]: cancel, completion, return).
+    Satisfiability: [retry_run_hypotheses] / [retry_run_retried] (a stream
+    breaks, then the address refuses every dial for ever) and
+    [good_run_hypotheses] / [good_run_returns] (a late message, then Remove). *)
+
+(** retried for ever: the stream of a target that is never removed has ended
+    ([PReset]: Recv failed with an error, EOF or cancellation): its Reset is
+    made and a new connection attempt on a fresh sub-context starts *)
+Theorem C13_live_retried_for_ever :
+  forall c r lb, is_lrun c r lb ->
+  (forall j, lb j <> Some (LV ERemoveCalled)) ->
+  wfair r (mon_moves lb) (mon_can c) -> wfair r (env_moves lb) (env_can c) ->
+  forall k, s_pc (r k) = PReset -> alive (r k) ->
+  exists j1, k <= j1 /\ lb j1 = Some (LV CReset)
+  /\ exists j2, j1 < j2 /\ s_pc (r j2) = PMeta /\ s_sdone (r j2) = false /\ alive (r j2).
+Proof. exact retried_for_ever. Qed.
+Print Assumptions C13_live_retried_for_ever.
+
+(** a forced Reconnect or a receive timeout (sub-context done while a stream is
+    open), provided the cancelled stream delivers no further message: the
+    stream is ended, Reset is made, a new attempt starts *)
+Theorem C13_live_forced_reconnect_retried :
+  forall c r lb, is_lrun c r lb ->
+  (forall j, lb j <> Some (LV ERemoveCalled)) ->
+  wfair r (mon_moves lb) (mon_can c) -> wfair r (env_moves lb) (env_can c) ->
+  (forall j, s_sdone (r j) = true -> forall m, lb j <> Some (LV (ERecv (RMsg m)))) ->
+  forall k, doomed (r k) -> in_stream (s_pc (r k)) = true ->
+  exists j1, k <= j1 /\ lb j1 = Some (LV CReset)
+  /\ exists j2, j1 < j2 /\ s_pc (r j2) = PMeta /\ s_sdone (r j2) = false /\ alive (r j2).
+Proof. exact forced_reconnect_retried. Qed.
+Print Assumptions C13_live_forced_reconnect_retried.
+
+(** Remove returns: a Remove in progress on a managed target ([s_rmc]) is
+    followed by its return, if from some step [K] on a cancelled stream
+    delivers no further message and the select of the retry loop takes the
+    ctx.Done branch (i.e. late messages and lost races happen finitely often) *)
+Theorem C13_live_remove_returns :
+  forall c r lb, is_lrun c r lb -> r 0 = init ->
+  wfair r (mon_moves lb) (mon_can c) -> wfair r (env_moves lb) (env_can c) ->
+  wfair r (rm_moves r lb) rm_can ->
+  forall K,
+  (forall j, K <= j -> s_sdone (r j) = true -> forall m, lb j <> Some (LV (ERecv (RMsg m)))) ->
+  (forall j, K <= j -> s_pc (r j) = PLoop -> s_cdone (r j) = true -> s_pc (r (S j)) <> PMeta) ->
+  forall k, s_rmc (r k) = true ->
+  exists j, k <= j /\ lb j = Some (LV (ERemoveReturned true)).
+Proof. exact remove_returns. Qed.
+Print Assumptions C13_live_remove_returns.
+
+(** when it returns, every stream that was opened has had its Reset *)
+Theorem C13_live_reset_before_return :
+  forall c r lb, is_lrun c r lb -> r 0 = init ->
+  forall j, lb j = Some (LV (ERemoveReturned true)) -> quiescent (s_pc (r (S j))) = true ->
+  alt false (gor (trace_of lb (S j))) = true.
+Proof. exact reset_before_return. Qed.
+Print Assumptions C13_live_reset_before_return.
+
+(** silence after Remove over infinite runs: after the return no callback and no
+    environment query of that name occurs at any later step, unless Add is
+    called again (afterwards by the same client, or by a second goroutine) *)
+Theorem C13_live_silence_after_return :
+  forall c r lb, is_lrun c r lb -> r 0 = init ->
+  forall k j e, lb k = Some (LV (ERemoveReturned true)) -> k < j ->
+  lb j = Some (LV e) -> is_gor e = true ->
+  (exists i, k < i /\ i < j /\ lb i = Some (LV EAddCalled))
+  \/ (exists i, i < j /\ lb i = Some (LV (XCalled KAdd))).
+Proof. exact silence_after_return. Qed.
+Print Assumptions C13_live_silence_after_return.
+
+(** the statements discriminate: the mechanism of C13/seed_vb (the receive loop
+    waits on the timer channel for ever once the timer has fired while a message
+    was in flight, i.e. the goroutine never moves from [blocked] states) has a
+    run in which every other hypothesis of C13_live_remove_returns holds,
+    Remove is in progress at step 13 and never returns *)
+Theorem C13_live_remove_returns_refuted_for_blocked_receive_loop :
+  is_lrun cfgL bad_run bad_lab /\ bad_run 0 = init
+  /\ (forall k, mon_moves bad_lab k -> blocked cfgL (bad_run k) = false)
+  /\ wfair bad_run (mon_moves bad_lab) (fun s => mon_can cfgL s /\ blocked cfgL s = false)
+  /\ wfair bad_run (env_moves bad_lab) (env_can cfgL)
+  /\ wfair bad_run (rm_moves bad_run bad_lab) rm_can
+  /\ (forall j, 11 <= j -> s_sdone (bad_run j) = true ->
+                forall m, bad_lab j <> Some (LV (ERecv (RMsg m))))
+  /\ (forall j, s_pc (bad_run j) = PLoop -> s_cdone (bad_run j) = true ->
+                s_pc (bad_run (S j)) <> PMeta)
+  /\ s_rmc (bad_run 13) = true
+  /\ forall j, bad_lab j <> Some (LV (ERemoveReturned true)).
+Proof. exact remove_returns_refuted_for_blocked_receive_loop. Qed.
+Print Assumptions C13_live_remove_returns_refuted_for_blocked_receive_loop.
